@@ -96,8 +96,9 @@ def _safe(s):
 
 
 def replay_file(prop, r):
-    os.makedirs(os.path.join(VERIF, "replays"), exist_ok=True)
-    return os.path.join(VERIF, "replays", f"{prop}-{_safe(r['name'])}.json")
+    d = os.path.join(VERIF, "replays") if os.path.realpath(REPO) == "/repo" else os.environ.get("PYVC_REPLAY_DIR", "/tmp/pyvc_replays_scratch")
+    os.makedirs(d, exist_ok=True)
+    return os.path.join(d, f"{prop}-{_safe(family(r['name']))}.json")
 
 
 def run_replay(path, search=True):
@@ -144,7 +145,7 @@ def replay_batch(recs, seed):
 
 def family(name):
     """Obligation family: the name without its @shape suffix."""
-    return name.split("@")[0]
+    return re.sub(r"\[[^\]]*\]", "", name.split("@")[0])
 
 
 def finish(prop, tier, seed, level, records, errors, walls, t0, *, functions, assumptions,
@@ -259,8 +260,9 @@ def finish(prop, tier, seed, level, records, errors, walls, t0, *, functions, as
         "wall_s": round(time.time() - t0, 2),
         "violations": len(violations),
     }
-    os.makedirs(os.path.join(VERIF, "evidence"), exist_ok=True)
-    with open(os.path.join(VERIF, "evidence", f"{prop}.json"), "w") as fh:
+    evdir = os.path.join(VERIF, "evidence") if os.path.realpath(REPO) == "/repo" else os.environ.get("PYVC_EVIDENCE_DIR", "/tmp/pyvc_evidence_scratch")
+    os.makedirs(evdir, exist_ok=True)
+    with open(os.path.join(evdir, f"{prop}.json"), "w") as fh:
         json.dump(ev, fh, indent=1, default=str)
 
     for (k, r) in known_hits:
